@@ -205,6 +205,10 @@ func init() {
 				"location-timeout-not-duration": func(p *config.PikeConfig) { p.Locations[0].ProxyTimeout = "soon" },
 				"location-upstream-missing":     func(p *config.PikeConfig) { p.Locations[0].Upstream = "" },
 				"server-addr-empty":             func(p *config.PikeConfig) { p.Servers[0].Addr = "" },
+				"server-cache-empty":            func(p *config.PikeConfig) { p.Servers[0].Cache = "" },
+				"server-location-name-empty":    func(p *config.PikeConfig) { p.Servers[0].Locations = []string{""} },
+				"location-name-empty":           func(p *config.PikeConfig) { p.Locations[0].Name = ""; p.Servers[0].Locations = []string{""} },
+				"upstream-name-empty":           func(p *config.PikeConfig) { p.Upstreams[0].Name = ""; p.Locations[0].Upstream = "" },
 				"server-locations-empty":        func(p *config.PikeConfig) { p.Servers[0].Locations = nil },
 				"server-minlength-not-size":     func(p *config.PikeConfig) { p.Servers[0].CompressMinLength = "1zz" },
 				"server-filter-not-regexp":      func(p *config.PikeConfig) { p.Servers[0].CompressContentTypeFilter = "(" },
